@@ -3,6 +3,7 @@ import Model.CompressHeap
 import Model.CompressRecv
 import Model.CompressSnappy
 import Model.CompressSend
+import Model.CompressLz4Block
 import Driver.Util
 namespace Driver.C18
 open Util Compress
@@ -616,6 +617,19 @@ def step (_ : Unit) (ws : List String) : Unit × String :=
       match lz4Decode bc d with
       | .ok y => "ok:" ++ canon y
       | .error _ => "err"
+    | _, _ => "bad-op"
+  | ["lz4blk", block, n] =>
+    -- the LZ4 block format's decoder (Model/CompressLz4Block.lean) on arbitrary complete blocks
+    match parseBytes block, n.toNat? with
+    | some b, some n => (match lz4BlockDecode b n with | .ok o => "ok:" ++ canon o | .error _ => "err")
+    | _, _ => "bad-op"
+  | ["lz4brt", body, block] =>
+    -- what pierrec's CompressBlock produced for `body`, decoded by the format's decoder, must be `body`
+    match parseBytes body, parseBytes block with
+    | some b, some z =>
+      (match lz4BlockDecode z b.length with
+       | .ok d => if d == b then "ok:" ++ canon b else "format-mismatch:" ++ canon d
+       | .error _ => "format-reject")
     | _, _ => "bad-op"
   | ["snapdec", data] =>
     -- the snappy block format's decoder (Model/CompressSnappy.lean) on arbitrary bytes
